@@ -10,7 +10,7 @@ import json, os, re, shutil, subprocess, time
 from . import common as C
 from . import lean as L
 
-PROPS = ["C01", "C03", "C05", "C06", "C07", "C08", "C09", "C19"]
+PROPS = ["C01", "C03", "C05", "C06", "C07", "C08", "C09", "C19", "C10"]
 
 # Divergence kinds each property's theorems depend on (DESIGN §3).
 SUBSCRIBE = {
